@@ -135,10 +135,10 @@ func corpus() []entry {
 }
 
 type descriptor struct {
-	Entry   int          `json:"entry"`   // corpus index, or -1 = generated program
+	Entry   int          `json:"entry"` // corpus index, or -1 = generated program
 	Prog    *gen.Block   `json:"prog,omitempty"`
 	Script  []drive.Stim `json:"script,omitempty"`
-	K       int          `json:"k"`       // cancel when this many traces have been received (0 = before start)
+	K       int          `json:"k"` // cancel when this many traces have been received (0 = before start)
 	Perturb uint64       `json:"perturb"`
 }
 
